@@ -1280,7 +1280,7 @@ func c15LevelOf(prog string) string {
 // ---------------------------------------------------------------------------
 
 func runC15(replay string) int {
-	run := ev.NewRun("C15", "exploration")
+	run := ev.NewRun("C15", "model_checking")
 	run.Assumptions = []string{
 		"expectations are computed from the block time of the executing block only; the wall clock is read solely to label violations that are exactly what 'destroy guard compares with time.Now()' predicts",
 		"locked amounts come from the SDK vesting account's own LockedCoins(blockTime); the check trusts x/auth/vesting, not evermint code, for the schedule",
